@@ -91,12 +91,46 @@ static int get_num(
   return 0;
 }
 
+// Pass 1 only: skip the rest of an address that can't be evaluated yet.
+// Inside ( ) or [ ] stop at the closing token (or at a ',') so the caller
+// still sees the addressing mode and counts the same bytes as pass 2.
+static void ignore_address(AsmContext *asm_context, char closer)
+{
+  char token[TOKENLEN];
+  int token_type;
+  int nested = 0;
+
+  if (closer == 0)
+  {
+    ignore_operand(asm_context);
+    return;
+  }
+
+  while (true)
+  {
+    token_type = tokens_get(asm_context, token, TOKENLEN);
+
+    if (token_type == TOKEN_EOL || token_type == TOKEN_EOF) { break; }
+
+    if (nested == 0 && (IS_TOKEN(token, ',') || IS_TOKEN(token, closer)))
+    {
+      break;
+    }
+
+    if (IS_TOKEN(token, '(')) { nested++; }
+    if (IS_TOKEN(token, ')') && nested > 0) { nested--; }
+  }
+
+  tokens_push(asm_context, token, token_type);
+}
+
 static int get_address(
   AsmContext *asm_context,
   char *token,
   int *token_type,
   int *num,
-  int *size)
+  int *size,
+  char closer = 0)
 {
   char modifier = 0;
   int worst_case = 0;
@@ -126,7 +160,7 @@ static int get_address(
   {
     if (asm_context->pass == 1)
     {
-      ignore_operand(asm_context);
+      ignore_address(asm_context, closer);
     }
       else
     {
@@ -537,7 +571,7 @@ int parse_instruction_65816(AsmContext *asm_context, char *instr)
         GET_TOKEN();
         if (token_type == TOKEN_EOL || token_type == TOKEN_EOF) { break; }
 
-        if (get_address(asm_context, token, &token_type, &num, &size) == -1)
+        if (get_address(asm_context, token, &token_type, &num, &size, ')') == -1)
         {
           return -1;
         }
@@ -651,7 +685,7 @@ int parse_instruction_65816(AsmContext *asm_context, char *instr)
         GET_TOKEN();
         if (token_type == TOKEN_EOL || token_type == TOKEN_EOF) { break; }
 
-        if (get_address(asm_context, token, &token_type, &num, &size) == -1)
+        if (get_address(asm_context, token, &token_type, &num, &size, ']') == -1)
         {
           return -1;
         }
@@ -744,12 +778,9 @@ int parse_instruction_65816(AsmContext *asm_context, char *instr)
           op = OP_ADDRESS24;
         }
 
-        // forward label
-        if (num == 0)
-        {
-          int worst_case = asm_context->memory_read(asm_context->address);
-          if (worst_case == 1) { size = 16; }
-        }
+        // A forward label with no forced size was already widened to 16 bit
+        // by get_address() in both passes. A size forced with .b, .w, .l,
+        // <, ! or > has to be honored in pass 1 too or the passes disagree.
 
         GET_TOKEN();
         if (token_type == TOKEN_EOL || token_type == TOKEN_EOF) { break; }
